@@ -91,9 +91,9 @@ CLAIMED = {
 ADDED = {
  "C01": " Also: a quarter of the concurrent calls return a value TOGETHER with an error; model assumption `Async` now includes 'the read loops do nothing between two reads that can wait' (extracted facts).",
  "C02": " The loops' non-blocking bodies (`reqLoopBlocksOnlyOnRead`, `respLoopBlocksOnlyOnRead`) are extracted facts under `Async`; workloads include 1300 stalled handlers per side and chains of depth 2600 (no admission limit).",
- "C03": " C03_read_failure_reaches_setErr: every read error reaches setErr unconditionally and without waiting (no foreign lock, no channel operation); fault cases include calls issued inside the ForRemotes callback, judged before any teardown, and injected errors that wrap context.DeadlineExceeded/Canceled.",
+ "C03": " C03_setErr_always_closes, C03_recover_blocks_canonical; C03_read_failure_reaches_setErr: every read error reaches setErr unconditionally and without waiting (no foreign lock, no channel operation); fault cases include calls issued inside the ForRemotes callback, judged before any teardown, and injected errors that wrap context.DeadlineExceeded/Canceled.",
  "C04": " C04_closure_invocations_are_cancellable (the proxy hands the invocation's own context to the stub; release never waits for a running closure) + scenarios: invocation under a deadline, cancel while the passed closure is running.",
- "C05": " Further modules: Props/C05Callee.lean (callee-side containment, model Callee.lean, trace-validated by 19 raw-peer scenarios in child processes: `ce run`), Props/C05Deadlock.lean (no internal wait cycle), Props/C08Live.lean (decoder signals exactly once; done implies signalled; readers can always leave), closure release never waits for a running closure; late frames on an ended stream link in a child process.",
+ "C05": " The closure table's mutex is model state (never held in a reachable state of the current tree; witnesses on the flipped skeleton); C05_reflect_call_never_waits; C05_recover_blocks_canonical; raw-peer children (duplicate responses on a live link, bad closure id invoked from a spawned goroutine). Further modules: Props/C05Callee.lean (callee-side containment, model Callee.lean, trace-validated by 19 raw-peer scenarios in child processes: `ce run`), Props/C05Deadlock.lean (no internal wait cycle), Props/C08Live.lean (decoder signals exactly once; done implies signalled; readers can always leave), closure release never waits for a running closure; late frames on an ended stream link in a child process.",
  "C06": " Props/C06Link.lean: terminating a link never crashes, for every interleaving of setErr with in-flight calls (M2 over M1); every other hostile link has a call of ours in flight; zero-parameter exported methods in the zoo; systematic name sweep.",
  "C07": " `Faithful` now includes: the walk is repeated on every request from the object held now (no cache), the argument-count check precedes every access to the parameter list; scenario: the exposed graph is re-pointed between calls.",
  "C08": " Stream model: the silent abort is not a step of the current source (C15_no_silent_abort), decoder done implies readers signalled; C08_envelope_fresh_per_frame; scenarios: envelopes with omitted members, 300 pipelined requests in one chunk, frames after the link ended.",
@@ -104,9 +104,10 @@ ADDED = {
  "C13": " Re-link phase: a new link after a failure gets a fresh id, survivors keep identity and routing.",
  "C14": " The harness samples the number of open transport reads at every disconnect notification (must be 0).",
  "C15": " Post-teardown closure-carrying calls must leave no registration; Props/C08Live.lean (decoder done implies signalled, readers can always leave).",
- "C16": " C16_setErr_waits_for_nobody (setErr takes only its own lock; the loops reach it without waiting); in-callback and context-wrapping fault cases.",
+ "C16": " C16_only_link_failures_end_the_link is a theorem of M2 now (Receive refusing a done context is model behaviour; witness on the flipped skeleton), C16_link_returns_the_slot, C16_proxy_failures_are_fatal; raw-peer children (bad closure id, refused error-response); fail-then-cancel; C16_setErr_waits_for_nobody (setErr takes only its own lock; the loops reach it without waiting); in-callback and context-wrapping fault cases.",
  "C17": " C17_closure_arglist_is_array + frames of closure invocations (0 and 2 closure arguments) decoded independently.",
 }
+STATE_PROPS = {"C01", "C02", "C03", "C04", "C05", "C06", "C07", "C11", "C12", "C13", "C14", "C15", "C16", "C19", "C20"}
 PENDING = {}
 checks = []
 na = []
@@ -115,6 +116,8 @@ for p in props:
     if pid in CLAIMED:
         tech, text, note, ref = CLAIMED[pid]
         text = text + ADDED.get(pid, "")
+        if pid in STATE_PROPS:
+            text += " Also checked on every run (Props/State.lean): the state-holding structs have exactly the fields the models' state spaces were written from, there is no mutable package-level state, every function body releases what it locks on every path, every error branch reports with one of its own statements and leaves."
         checks.append({
             "property_id": pid,
             "quick_cmd": f"./check {pid} --tier quick",
